@@ -689,7 +689,7 @@ def rule_emit_order(chk, prog):
 
 
 # ----------------------------------------------------------------------------
-def analyse(chk):
+def _analyse_own(chk):
     prog = pf.Program(chk.tree, [ST, FN, TD])
     chk.rule("guarded-param", "constant index beyond the sl_level-independent length of a parameter list is "
                               "dominated by sl_level == 'MGGA'")
@@ -723,6 +723,12 @@ def analyse(chk):
         "scaling degree of the UEG formulas (C03)",
         "FracLaplSettings.ueg_vector reports 0 for the ndd components (the source says they are not zero)",
     ]
+
+
+def analyse(chk):
+    _analyse_own(chk)
+    chk.guard(lambda c_: core.include_findings(c_, 'C03', files=['ciderpress/dft/settings.py', 'ciderpress/dft/feat_normalizer.py'], rules=['ueg-deg', 'norm-usp'],
+                                               why='UEG formulas must scale with the density as the declared powers say (DESIGN C13-2)'))
 
 
 def mutants(tree):
